@@ -519,10 +519,18 @@ Proof.
   unfold niter. destruct (nproposal f cfg it s (s_f2 s) (f (s_x2 s))) as [[[next [[[lo hi] flo] fhi]] b]|code]; [|discriminate].
   match goal with |- (if ?c then _ else _) = _ -> _ => destruct c eqn:EC end; [|discriminate].
   intros H; inversion H; subst. unfold small_step. cbn [s_x2 s_x1].
-  apply andb_true_iff in EC. destruct EC as [C1 C2].
+  apply andb_true_iff in EC. destruct EC as [EC _]. apply andb_true_iff in EC. destruct EC as [C1 C2].
   split.
   - match type of C1 with (if ?c then _ else _) = _ => destruct c end; [auto|discriminate].
   - match type of C2 with (if ?c then _ else _) = _ => destruct c end; [auto|discriminate].
+Qed.
+
+Lemma niter_done_regular it s s' : niter f cfg it s = NDone s' ->
+  (n_aitken cfg && Nat.eqb (it mod 3) 0) = false.
+Proof.
+  unfold niter. destruct (nproposal f cfg it s (s_f2 s) (f (s_x2 s))) as [[[next [[[lo hi] flo] fhi]] b]|code]; [|discriminate].
+  match goal with |- (if ?c then _ else _) = _ -> _ => destruct c eqn:EC end; [|discriminate].
+  intros _. apply andb_true_iff in EC. destruct EC as [_ EC]. apply negb_true_iff in EC. exact EC.
 Qed.
 
 Lemma nloop_converged fuel it s x s' : nloop f cfg fuel it s = (NConverged x, s') ->
